@@ -5,7 +5,10 @@ For GaussianShell: which members the copy constructor, operator= and copy() carr
 For the value classes: member list, raw-pointer members, and the members each copy op mentions."""
 import json, os, subprocess, sys, tempfile
 sys.path.insert(0, os.path.dirname(os.path.abspath(__file__)))
-from util import TranslateError
+try:
+    from .util import TranslateError
+except ImportError:
+    from util import TranslateError
 
 FIELD_MAP = {"exps": "exps", "coeffs": "coeffs", "centerVec": "centerVec", "local_ptr": "localPtr",
              "localCenter": "localCenter", "min_exp": "minExp", "l": "l", "atom_id": "atomId"}
